@@ -1,4 +1,5 @@
 import Aplang.Proofs.ParserFuel
+import Aplang.Proofs.ParserStable
 import Aplang.Thm.C08
 import Aplang.Model.Run
 /-!
@@ -102,6 +103,15 @@ theorem parse_total (ts : List Token) (h : TokensOK ts) :
   · exact Or.inl h1
   · exact Or.inr h2
   · exact absurd h3 (parse_fuel_adequate ts h)
+
+/-- **the amount of fuel is irrelevant** from the proved bound on: every fuel `g ≥ 12 * n + 14` gives the
+answer `runTokens` gets with `parseFuel n` (`parse_stable`, `Proofs/ParserStable`: more fuel never changes an
+outcome other than `.fuel`) — the fuel argument is a proof device, not a parameter of the behaviour -/
+theorem parse_fuel_irrelevant (ts : List Token) (h : TokensOK ts) (g : Nat) (hg : 12 * ts.length + 14 ≤ g) :
+    parse g ts = parse (parseFuel ts.length) ts := by
+  have hb := parse_fuel_bound (12 * ts.length + 14) ts h (Nat.le_refl _)
+  have h2 : 12 * ts.length + 14 ≤ parseFuel ts.length := by unfold parseFuel; omega
+  rw [parse_stable hg ts hb, parse_stable h2 ts hb]
 
 /-- what `runTokens` does with the interpreter's result -/
 def execOut : Res St → RunOut
